@@ -235,7 +235,21 @@ theorem C14_sequence (ini : Ini) (ovs ads : List Op) :
 theorem C14_cli_last_wins (s k v1 v2 : String) :
     cliOverrides [.override s k v1, .override s k v2] [] = [.override s k v2] ∧
     cliOverrides [.override s k v1] [.remove s k] = [.remove s k] := by
-  constructor <;> simp [cliOverrides]
+  constructor <;> simp [cliOverrides, cliOverridesWith]
+
+/-- two spellings of one key on the command line address the same item: an override under one spelling followed by a removal under
+    another leaves exactly the removal (current code); the shipped dictionary kept both and the second operation then failed -/
+theorem C14_cli_whitespace (s k k' v : String) (h : norm k = norm k') :
+    cliOverrides [.override s k v] [.remove s k'] = [.remove s k'] := by
+  simp [cliOverrides, cliOverridesWith, h]
+
+theorem C14_cli_shipped_witness :
+    cliOverridesWith false [.override "P" "f(r,a)" "1", .override "P" "f (r, a)" "2"] [.remove "P" "f(r,a)"]
+      = [.remove "P" "f(r,a)", .override "P" "f (r, a)" "2"] ∧
+    (applyOps currentCfg ⟨[("P", [("f(r,a)", "0"), ("g", "1")])], []⟩ [.remove "P" "f(r,a)", .override "P" "f (r, a)" "2"] []).isOk = false ∧
+    (applyOps currentCfg ⟨[("P", [("f(r,a)", "0"), ("g", "1")])], []⟩
+        (cliOverrides [.override "P" "f(r,a)" "1", .override "P" "f (r, a)" "2"] [.remove "P" "f(r,a)"]) []).isOk = true := by
+  decide
 
 -- FALSE: a section name occurring twice in `ini.sections` (which `readIni` never produces: `seenSecs` rejects it) breaks it,
 -- because `sectionKeys` looks the section up by name and finds the FIRST one for both entries:
